@@ -150,6 +150,17 @@ Theorem C11_fence_document : forall m n pre cpre trail n' texts src,
   inr (replace_nul (bs "<pre><code>" ++ escape_html (out_lines true texts) ++ bs "</code></pre>" ++ [10])).
 Proof. exact fence_document_html. Qed.
 
+(* the same with an info string on the opening fence (not starting with the marker; without backticks for a backtick fence) *)
+Theorem C11_fence_info_document : forall m n pre cpre trail params n' texts src,
+  m = 96 \/ m = 126 -> (3 <= n)%nat -> forallb is_ws pre = true -> forallb is_ws cpre = true ->
+  cols_from 0 pre < 4 -> cols_from 0 cpre < 4 ->
+  match params with x :: _ => (x =? m) = false | [] => True end -> (m = 96 -> mem 96 params = false) ->
+  (forall T, In T texts -> runs_lt m (N.of_nat n) T = true) -> (n <= n')%nat -> all_sptab trail = true ->
+  texts_of src = (pre ++ repeatN m n ++ params) :: map (fun T => pre ++ T) texts ++ [cpre ++ repeatN m n' ++ trail] ->
+  forall xhtml, html_of_parse (default_fuel md_cmark) md_cmark xhtml src =
+  inr (replace_nul (bs "<pre><code" ++ class_attr (bs "language-") params ++ bs ">" ++ escape_html (out_lines true texts) ++ bs "</code></pre>" ++ [10])).
+Proof. exact fence_info_document_html. Qed.
+
 Theorem C11_indented_document : forall pre texts src,
   forallb is_ws pre = true -> cols_from 0 pre = 4 ->
   (exists T, nth_error texts 0 = Some T /\ blank T = false) ->
@@ -195,6 +206,7 @@ Example C11_nonvacuous :
   calc_right_whitespace (takeN (l_first l) (l_text l)) (l_indent l - 4) = (0, 4).
 Proof. vm_compute. reflexivity. Qed.
 
+Print Assumptions C11_fence_info_document.
 Print Assumptions C11_cut_keeps_line_verbatim.
 Print Assumptions C11_lines_joined_verbatim.
 Print Assumptions C11_fence_content_is_the_lines.
